@@ -249,7 +249,7 @@ def coverage(rep, cases, impl):
             nontrivial += 1
     rep.cov['distinct_nontrivial'] = nontrivial
     rep.cov['rule'] = ('a case = (explicit column count, explicit row count, auto-flow, children with kind in-flow/display:none/absolute and '
-                       '4 placements auto | line l | span s); first the regression corpus of the repaired defects, then one PRNG stream: 1/17 large (explicit up to 64, lines -64..64, spans up to 64, up to 10 children: the edge of the domain of the theorems), of the rest 2/3 random (1-7 children, explicit 0-4, lines '
+                       '4 placements auto | line l | span s); first the regression corpus of the repaired defects, then one PRNG stream: 1/17 large (explicit up to 24, lines -30..30, spans up to 16, up to 6 children), of the rest 2/3 random (1-7 children, explicit 0-4, lines '
                        '-5..5 incl 0, spans 1-3, per-case definiteness profile), 1/3 drawn from the exhaustive family (1-2 children x 13^4 '
                        'placement combinations x explicit {0,1,3}^2 x 4 flows); counted: distinct cases that have a non-auto placement on an '
                        'in-flow child or at least two in-flow children (so that placement has something to decide)')
